@@ -97,6 +97,16 @@ def real_scenarios(draw, with_faults=True, kinds=None, only=None, fault_share=7)
     return sc
 
 
+@st.composite
+def upload_scenarios(draw):
+    """fault-free, every request carries a body: bytes / iterator / 60 kB / 3 MB (partial socket writes, TLS record splitting, HTTP/2 flow control)"""
+    sc = draw(real_scenarios(with_faults=False, kinds=[k for k in KINDS if k not in REFUSALS]))
+    for r in sc["requests"]:
+        r["body"] = draw(st.sampled_from(["bytes", "iter", "big", "big", "huge"]))
+        r["method"] = draw(st.sampled_from(["POST", "PUT"]))
+    return sc
+
+
 def timeouts_for(sc):
     f = sc.get("fault") or {}
     k = f.get("kind")
@@ -217,8 +227,10 @@ def run_real(sc, variant=None):
             rec["pipes"] = [{"id": p.id, "target": p.target, "events": list(p.events), "tls": len(p.tls), "sent": len(p.sent), "written": len(p.written),
                              "reset": p.was_reset, "fault": p.fault_fired,
                              "tls_records": [{"sni": t["server_hostname"], "alpn": t["alpn"], "selected": t["selected"]} for t in p.tls],
-                             "exchanges": [{"host": _host_of(ex), "tls_depth": ex.get("tls_depth"), "token": ex.get("token")} for ex in _exchanges(p)
-                                           if not ex.get("proxy_hop") and ex.get("method") != b"CONNECT"]}
+                             "exchanges": [{"host": _host_of(ex), "tls_depth": ex.get("tls_depth"), "token": ex.get("token"), "complete": ex.get("complete"),
+                                            "method": bytes(ex.get("method") or b""), "body": bytes(ex["body"]) if ex.get("body") is not None else None,
+                                            "proxy_hop": bool(ex.get("proxy_hop"))}
+                                           for ex in _exchanges(p) if ex.get("method") != b"CONNECT"]}
                             for p in net.pipes]
             rec["harness_errors"] = list(net.errors)
             rec["attempts"] = net.connect_attempts
@@ -278,7 +290,7 @@ def truth(sc, req):
 def judge(sc, rec):
     """-> {prop: [violations]}, tags, fired"""
     kind = sc["kind"]
-    v = {"C02": [], "C06": [], "C15": [], "C16": [], "C10": []}
+    v = {"C02": [], "C06": [], "C15": [], "C16": [], "C10": [], "C03": []}
     f = sc.get("fault") or {}
     fk = f.get("kind")
     fired = bool(rec["fired"]) or (fk == "untrusted" and kind in TLS_KINDS)
@@ -346,12 +358,36 @@ def judge(sc, rec):
         unanswered = fk != "stall" or any(p["fault"] and p["sent"] < _needed(sc, rec, p) for p in rec["pipes"])
         if fk != "stall":
             v["C16"].append(V("C16", "timeout-not-applied", f"{what}: the peer never completed the {fk.split('-')[0]} step, yet every request succeeded", **base))
+    # ---- what the server received for every request that succeeded (C03): method and body, byte for byte, exactly once
+    seen = {}
+    for p in rec["pipes"]:
+        for ex in p["exchanges"]:
+            if ex["token"]:
+                seen.setdefault(ex["token"], []).append(ex)
+    for req, out in zip(sc["requests"], rec["outs"]):
+        if out["exc"] is not None:
+            if not fired and not refusal and req["body"] is not None and not (out["exc"]["name"].endswith("Timeout") and SHORT in timeouts_for(sc).values()):
+                got = [len(e["body"] or b"") for e in seen.get(req["tok"], [])]
+                v["C03"].append(V("C03", "upload-failed", f"{what}: request {req['tok']} ({req['body']} body) raised {out['exc']['type']}: {out['exc']['msg'][:120]} although "
+                                  f"server and network behaved; body bytes that reached a server: {got}", exc=out["exc"]["name"], **base))
+            continue
+        exs = [e for e in seen.get(req["tok"], []) if e["complete"]]
+        b = body_for(req)
+        want = b"" if b is None else (b if isinstance(b, (bytes, bytearray)) else b"".join(b["chunks"]))
+        if len(exs) != 1:
+            v["C03"].append(V("C03", "transmissions", f"{what}: request {req['tok']} succeeded; complete copies of it received by servers: {len(exs)}", **base))
+        elif exs[0]["method"] != req["method"].encode() or (exs[0]["body"] or b"") != want:
+            got = exs[0]["body"] or b""
+            n = min(len(got), len(want))
+            diff = next((i for i in range(n) if got[i] != want[i]), n)
+            v["C03"].append(V("C03", "body", f"{what}: request {req['tok']}: the server received {exs[0]['method']!r} with a body of {len(got)} bytes, the caller sent "
+                              f"{req['method']} with {len(want)} bytes (first difference at offset {diff})", **base))
     # ---- what actually went over the wire in the ClientHello of the origin hop (C10): server name, ALPN offer, TLS iff https
     pool_cfg0, _, scheme0 = topo(kind)
     proxy_hop_tls = 1 if "https-proxy" in kind else 0
     for p in rec["pipes"]:
         origin_tls = p["tls_records"][proxy_hop_tls:]
-        hosts = {ex["host"] for ex in p["exchanges"] if ex["host"] and not ex["host"].startswith("proxy.")}
+        hosts = {ex["host"] for ex in p["exchanges"] if ex["host"] and not ex["host"].startswith("proxy.") and not ex["proxy_hop"]}
         for t in origin_tls:
             if t["sni"] not in ("a.test", "b.test") or (hosts and t["sni"] not in hosts):
                 v["C10"].append(V("C10", "sni", f"{what}: the ClientHello for the origin on connection {p['id']} carries server name {t['sni']!r}; the requests on it "
@@ -360,7 +396,7 @@ def judge(sc, rec):
             if ("h2" in (t["alpn"] or [])) != want_h2 or "http/1.1" not in (t["alpn"] or []) and pool_cfg0.get("http1", True):
                 v["C10"].append(V("C10", "alpn-offer", f"{what}: the ClientHello for the origin on connection {p['id']} offers ALPN {t['alpn']} with http2={want_h2}", mode="real", **base))
         for ex in p["exchanges"]:
-            if ex["host"] and ex["host"].startswith("proxy."):
+            if ex["proxy_hop"] or (ex["host"] and ex["host"].startswith("proxy.")):
                 continue
             want_depth = proxy_hop_tls + (1 if scheme0 == "https" else 0)
             if ex["tls_depth"] is not None and ex["tls_depth"] != want_depth and not (scheme0 == "http" and "forward" in kind and ex["tls_depth"] == proxy_hop_tls):
@@ -761,7 +797,9 @@ def truncation_sweep(tier):
 def layer_for(prop_id, budget):
     from ..prop import Layer
 
-    if prop_id == "C10":
+    if prop_id == "C03":
+        strat = upload_scenarios
+    elif prop_id == "C10":
         strat = lambda: real_scenarios(with_faults=False, kinds=TLS_KINDS)  # noqa: E731
     elif prop_id == "C02":
         strat = lambda: real_scenarios(only=("truncate",), fault_share=4)  # noqa: E731
